@@ -441,6 +441,132 @@ def _returns_to_breaks(block, ost):
     return block
 
 
+def _const_truth_of(test, name, value):
+    """truth of a test that only asks about local `name` when it holds the constant `value`; None when not decided"""
+    if isinstance(test, ast.UnaryOp) and isinstance(test.op, ast.Not):
+        v = _const_truth_of(test.operand, name, value)
+        return None if v is None else not v
+    if isinstance(test, ast.Name) and test.id == name:
+        return bool(value)
+    if isinstance(test, ast.Compare) and len(test.ops) == 1 and isinstance(test.left, ast.Name) and test.left.id == name \
+            and isinstance(test.comparators[0], ast.Constant):
+        c = test.comparators[0].value
+        op = test.ops[0]
+        if isinstance(op, ast.Is):
+            return value is c
+        if isinstance(op, ast.IsNot):
+            return value is not c
+        if isinstance(op, ast.Eq) and type(value) is type(c):
+            return value == c
+        if isinstance(op, ast.NotEq) and type(value) is type(c):
+            return value != c
+    return None
+
+
+_NOT_NONE = object()
+
+
+def _abstract_truth(test, name, value):
+    """like _const_truth_of, for a local that holds SOME object that is not None (value is _NOT_NONE)"""
+    if value is not _NOT_NONE:
+        return _const_truth_of(test, name, value)
+    if isinstance(test, ast.UnaryOp) and isinstance(test.op, ast.Not):
+        v = _abstract_truth(test.operand, name, value)
+        return None if v is None else not v
+    if isinstance(test, ast.Compare) and len(test.ops) == 1 and isinstance(test.left, ast.Name) and test.left.id == name \
+            and isinstance(test.comparators[0], ast.Constant) and test.comparators[0].value is None:
+        if isinstance(test.ops[0], ast.Is):
+            return False
+        if isinstance(test.ops[0], ast.IsNot):
+            return True
+    return None
+
+
+def _thread_once_exits(root):
+    """`x = helper()` expanded as a once-block, followed by `if x is None: return ...` (the hand-over protocol of a helper that
+    reports failure by its result): when every exit of the block binds x to something that decides that test - a constant, or
+    an object that can not be None (a tuple / list / dict display, or a name an isinstance / issubclass test was true for) -
+    the exits go straight to their side: `x = None; break` reads `x = None; return ...`, the other exits continue with the
+    else side, and the test itself is gone.  The failure exits of the helper stay separate paths instead of meeting the
+    successful one in front of the test."""
+    def lists(node):
+        for field in ('body', 'orelse', 'finalbody'):
+            sub = getattr(node, field, None)
+            if isinstance(sub, list) and sub and isinstance(sub[0], ast.stmt):
+                yield sub
+        for h in getattr(node, 'handlers', []):
+            yield h.body
+
+    def not_none_expr(e, block, facts):
+        if isinstance(e, (ast.Tuple, ast.List, ast.Dict, ast.Set, ast.JoinedStr, ast.ListComp, ast.DictComp, ast.SetComp)):
+            return True
+        if isinstance(e, ast.Constant):
+            return e.value is not None
+        if isinstance(e, ast.Name):
+            if e.id in facts:
+                return True
+            defs = [n.value for n in ast.walk(block) if isinstance(n, ast.Assign) and len(n.targets) == 1 and isinstance(n.targets[0], ast.Name)
+                    and n.targets[0].id == e.id]
+            return bool(defs) and all(not isinstance(d, ast.Name) and not_none_expr(d, block, facts) for d in defs)
+        return False
+
+    def exits(stmts, name, block, facts, out):
+        """collect (list, index of the break, abstract value | None) for every way out of the once block"""
+        for i, st in enumerate(stmts):
+            if isinstance(st, ast.Break):
+                val = None
+                prev = stmts[i - 1] if i > 0 else None
+                if isinstance(prev, ast.Assign) and len(prev.targets) == 1 and isinstance(prev.targets[0], ast.Name) and prev.targets[0].id == name:
+                    if isinstance(prev.value, ast.Constant):
+                        val = ('const', prev.value.value)
+                    elif not_none_expr(prev.value, block, facts):
+                        val = ('const', _NOT_NONE)
+                elif name in facts:
+                    val = ('const', _NOT_NONE)      # `x = x` was dropped: x is what the test found
+                out.append((stmts, i, val))
+            elif isinstance(st, (ast.For, ast.AsyncFor, ast.While) + FUNC_TYPES + (ast.ClassDef,)):
+                continue
+            elif isinstance(st, ast.If):
+                pos = set(facts)
+                for c in ast.walk(st.test):
+                    if isinstance(c, ast.Call) and isinstance(c.func, ast.Name) and c.func.id in ('isinstance', 'issubclass') and c.args \
+                            and isinstance(c.args[0], ast.Name) and not isinstance(getattr(c, 'parent', None), ast.UnaryOp):
+                        pos.add(c.args[0].id)
+                only_and = not any(isinstance(x, ast.BoolOp) and isinstance(x.op, ast.Or) for x in ast.walk(st.test)) and \
+                    not any(isinstance(x, ast.UnaryOp) for x in ast.walk(st.test))
+                exits(st.body, name, block, pos if only_and else facts, out)
+                exits(st.orelse, name, block, facts, out)
+            else:
+                for sub in lists(st):
+                    exits(sub, name, block, facts, out)
+
+    for node in list(ast.walk(root)):
+        for lst in lists(node):
+            for i, st in enumerate(lst[:-1]):
+                nxt = lst[i + 1]
+                if not (isinstance(st, ast.While) and isinstance(st.test, ast.Constant) and getattr(st.test, 'kind', None) == 'once' and isinstance(nxt, ast.If)):
+                    continue
+                names = {x.id for x in ast.walk(nxt.test) if isinstance(x, ast.Name)}
+                if len(names) != 1:
+                    continue
+                name = next(iter(names))
+                found = []
+                exits(st.body, name, st, set(), found)
+                if not found:
+                    continue
+                truths = [(_abstract_truth(nxt.test, name, v[1]) if v is not None else None) for _, _, v in found]
+                if any(t is None for t in truths):
+                    continue
+                if any(t is True for t in truths) and not _always_returns(nxt.body):
+                    continue
+                # replace from the back so that indices stay valid
+                for (stmts, idx, v), t in sorted(zip(found, truths), key=lambda x: -x[0][1]):
+                    if t is True:
+                        stmts[idx:idx + 1] = _clone_ast(nxt.body)
+                lst[i + 1:i + 2] = nxt.orelse
+                break
+
+
 def _once_block(block, ost):
     """fallback of _eliminate_returns for shapes that would need statements to be duplicated: the helper body inside a
     synthetic `while True:` that every path leaves by `break` - `return v` reads `target = v; break`.  The control flow graph
@@ -449,6 +575,8 @@ def _once_block(block, ost):
     def rep(ret):
         v = ret.value
         if isinstance(ost, ast.Assign):
+            if isinstance(v, ast.Name) and len(ost.targets) == 1 and isinstance(ost.targets[0], ast.Name) and ost.targets[0].id == v.id:
+                return []       # `x = helper()` with `return x` in the helper: nothing to re-bind
             a = ast.Assign(targets=_clone_ast(ost.targets), value=v if v is not None else ast.Constant(value=None), type_comment=None)
             return [ast.fix_missing_locations(ast.copy_location(a, ret))]
         if v is None or isinstance(v, (ast.Constant, ast.Name)):
@@ -488,8 +616,7 @@ def _once_block(block, ost):
             last = ast.copy_location(ast.Return(value=None), block[-1])
             body.extend(rep(last))
             body.append(ast.copy_location(ast.Break(), block[-1]))
-    w = ast.While(test=ast.Constant(value=True), body=body, orelse=[])
-    w.synthetic_once = True
+    w = ast.While(test=ast.Constant(value=True, kind='once'), body=body, orelse=[])
     return [ast.fix_missing_locations(ast.copy_location(w, block[0]))]
 
 
@@ -866,6 +993,15 @@ class Model:
                 continue    # a larger shared helper is a unit of its own (rules find it by role)
             rets = [n for n in walk_local(h.node) if isinstance(n, ast.Return)]
             ylds = [n for n in walk_local(h.node) if isinstance(n, (ast.Yield, ast.YieldFrom))]
+            if isinstance(st, _IfCall) and st.nested is not None and len(body) == 1 and isinstance(body[0], ast.Return) and body[0].value is not None:
+                # a one-expression helper inside a larger expression: only predicates, formulas and thin wrappers are read in place
+                # (a helper that builds something - the discovery message - is a unit the rules find by its role)
+                v = body[0].value
+                thin = any(isinstance(x, ast.Call) and isinstance(x.func, ast.Attribute) and dotted(x.func.value) == 'self' for x in ast.walk(v))
+                formula = all(isinstance(x.func, ast.Name) and x.func.id in _FORMULA_FUNCS for x in ast.walk(v) if isinstance(x, ast.Call)) \
+                    and not any(isinstance(x, (ast.Lambda, ast.ListComp, ast.SetComp, ast.DictComp, ast.GeneratorExp, ast.JoinedStr, ast.Dict)) for x in ast.walk(v))
+                if not (thin or formula or _is_predicate(v)):
+                    continue
             if isinstance(st, ast.For):
                 if len(ylds) != 1 or not isinstance(ylds[0], ast.Yield) or ylds[0].value is None or rets or not _genloop_ok(h.node, ylds[0], st):
                     continue
@@ -880,7 +1016,9 @@ class Model:
                 # duplicating statements
                 orig_body = body
                 body = _clone_ast(body)
-                once = not os.environ.get('VERIF_NO_ONCE')
+                # the once-block form is used outside loops only: its `break`s would read as leaving the caller's loop
+                site = st.ifnode if isinstance(st, _IfCall) else st
+                once = not os.environ.get('VERIF_NO_ONCE') and not any(isinstance(a, (ast.For, ast.AsyncFor, ast.While)) for a in ancestors(site))
                 if isinstance(st, _IfCall):
                     if not _always_returns(body):
                         continue
@@ -1111,6 +1249,7 @@ class Model:
         new_root.body = rewrite(new_root.body)
         if not os.environ.get('VERIF_NO_NORMALIZE'):
             normalize_tests(new_root)       # guard clauses of expanded helpers read like the rest
+        _thread_once_exits(new_root)
         set_parents(new_root)
         new_root.parent = getattr(fi.node, 'parent', None)
         new_root.finfo = fi
